@@ -319,6 +319,23 @@ func (s *Session) report(id string, cfg *CheckConfig, dev bool, t0 time.Time, lo
 		"contract_files":           s.cs.Files,
 		"solver_timeout_s":         s.timeoutS,
 	}
+	lockSites, lockObls := 0, 0
+	for _, u := range s.units {
+		lockSites += u.LockSites
+		for _, o := range u.Obls {
+			if strings.Contains(o.Name, ":deadlock:") {
+				lockObls++
+			}
+		}
+	}
+	if lockSites > 0 {
+		cov["lock_discipline"] = map[string]any{
+			"lock_events_and_lock_taking_calls_examined": lockSites,
+			"obligations_sent_to_the_solver":             lockObls,
+			"decided_syntactically":                      "at every other site the mutex is not held on any path of the symbolic state (no obligation is generated)",
+			"methods_with_a_lock_summary":                len(s.ix.lockSummaries()),
+		}
+	}
 	if len(oracleSanity) > 0 {
 		cov["replay_oracle_sanity"] = oracleSanity
 	}
